@@ -248,3 +248,42 @@ def judge(pid, op, params, cols, res, shape, viols, tag, counters, V, ref=None, 
         bad = True
         viols.append(V("%s:%s:%s" % (pid, op, kind), "%s n=%d %r: %s (inputs at that cell: %s)" % (op, len(cols), params, msg, cell_inputs(cols, msg)), **tag))
     return "bad" if bad else "ok"
+
+
+def presets_small(cmd, n=1):
+    """1-3 representative parameter presets per data command (DESIGN.md section 3, "Command presets")."""
+    if cmd in ("WeightedSum", "WeightedMean", "FuzzyWeightedUnion"):
+        return [{"Weights": [1, 0.5, 2, 3, 1][:n]}, {"Weights": [2] * n}]
+    if cmd == "FuzzySelectedUnion":
+        return [{"TruestOrFalsest": "Truest", "NumberToConsider": 1}, {"TruestOrFalsest": "Falsest", "NumberToConsider": max(1, n - 1)},
+                {"TruestOrFalsest": "Truest", "NumberToConsider": n}]
+    if cmd == "Normalize":
+        return [{}, {"StartVal": -1, "EndVal": 1}]
+    if cmd == "NormalizeZScore":
+        return [{"TrueThresholdZScore": 1, "FalseThresholdZScore": -1}, {"TrueThresholdZScore": -0.5, "FalseThresholdZScore": 2, "StartVal": 0, "EndVal": 10}]
+    if cmd == "CvtToFuzzyZScore":
+        return [{}, {"TrueThresholdZScore": -0.5, "FalseThresholdZScore": 2}]
+    if cmd in ("NormalizeCat", "CvtToFuzzyCat"):
+        vn, dn = ("FuzzyValues", "DefaultFuzzyValue") if cmd.startswith("Cvt") else ("NormalValues", "DefaultNormalValue")
+        return [{"RawValues": [0, 2, -9999], vn: [0.5, -0.5, 1], dn: 0.25}, {"RawValues": [-1, 1], vn: [1, -1], dn: -0.75}]
+    if cmd in ("NormalizeCurve", "CvtToFuzzyCurve"):
+        vn = "FuzzyValues" if cmd.startswith("Cvt") else "NormalValues"
+        return [{"RawValues": [2, -1, 0], vn: [1, -1, 0.5]}, {"RawValues": [0], vn: [0.25]}]
+    if cmd in ("NormalizeMeanToMid", "CvtToFuzzyMeanToMid"):
+        vn = "FuzzyValues" if cmd.startswith("Cvt") else "NormalValues"
+        return [{"IgnoreZeros": False, vn: [-1, -0.5, 0, 0.5, 1]}, {"IgnoreZeros": True, vn: [1, 0.5, 0, -0.5, -1]}]
+    if cmd in ("NormalizeCurveZScore", "CvtToFuzzyCurveZScore"):
+        vn = "FuzzyValues" if cmd.startswith("Cvt") else "NormalValues"
+        return [{"ZScoreValues": [1, -1, 0], vn: [1, -1, 0.25]}, {"ZScoreValues": [0.5], vn: [0.5]}]
+    if cmd == "CvtToFuzzy":
+        return [{}, {"TrueThreshold": 2, "FalseThreshold": -1}, {"Direction": "HighToLow"}]
+    if cmd == "CvtFromFuzzy":
+        return [{"TrueThreshold": 10, "FalseThreshold": 0}, {"TrueThreshold": -1, "FalseThreshold": 3}]
+    if cmd == "CvtToBinary":
+        return [{"Threshold": 0.5, "Direction": "LowToHigh"}, {"Threshold": 0, "Direction": "HighToLow"}]
+    return [{}]
+
+
+def arities(cmd, maxn=3):
+    a = arity(cmd)
+    return (1,) if a == "1" else (2,) if a == "2" else tuple(range(1, maxn + 1))
